@@ -86,7 +86,7 @@ def law_pairs(r, base, obj, caps, base_vals):
     return out
 
 
-KEY_LAWS = {'map_map', 'map_concat', 'nested_slices', 'map_slice', 'map_shuffle', 'map_sort', 'map_cache', 'concat_split'}
+KEY_LAWS = {'map_map', 'map_concat', 'nested_slices', 'map_slice', 'map_shuffle', 'map_sort', 'map_cache', 'concat_split', 'slice_slice', 'slice_all', 'concat_flatten'}
 
 
 def key_obs(o):
